@@ -15,10 +15,11 @@ for pid in props:
                 ctx = m.group(1).strip()[:60] if m else ''
                 taken.append('%s [%s]' % (cur, ctx))
     taken = sorted(set(taken))
-    avoid = ("This round asks for a change of one of these kinds: (a) ALIASING / COPY semantics - a dropped copy, a view instead of a copy, a shared mutable default, so that the library "
-             "mutates something the user passed in (start vector, bounds, masks, sample lists, monitors) or two objects come to share state, and the property fails only when the user reuses or edits that object afterwards; "
-             "(b) a BOUNDARY slip inside an algorithm - an off-by-one in a window, slice, range or generation index, '<' for '<=', first/last element mishandled - that is invisible unless the input sits exactly on that boundary; "
-             "(c) a FAILURE / EARLY-EXIT path - state left inconsistent after an exception raised inside the user's cost, constraint or callback, after an interrupt / exit request, after a limit of 0 or 1, or after an empty input. "
+    avoid = ("This round asks for a change of one of these kinds: (a) NUMERICS / TYPES - integer instead of float division, an int dtype kept where floats are needed, float equality where a tolerance was, "
+             "a tolerance or constant off by a factor, inf/nan/-0.0/overflow handled differently, precision lost by a needless round-trip through str/repr or float32; "
+             "(b) ORDER dependence - results that come to depend on dict/set iteration order, on the order of keyword arguments, list entries, mask entries or constraint lines, an unstable tie-break, sorted vs unsorted input; "
+             "(c) a broken EQUIVALENCE between two routes the documentation treats as the same - keyword vs positional argument, an explicit argument equal to the documented default vs the default itself, an alias or thin wrapper vs the "
+             "function it wraps, the one-line wrapper vs the class API, a method vs the module-level function behind it. "
              "Earlier rounds already changed these places (do NOT reuse the same edit; a different mechanism nearby is fine): " + ' | '.join(taken) + '.')
     name = 'seed%s%s' % (pid, suffix)
     out = subprocess.run([sys.executable, '/verif/tools/mkprompt.py', pid, name, avoid], capture_output=True, text=True).stdout
